@@ -136,7 +136,10 @@ func (s *Server) Serve(l *coapNet.UDPConn) error {
 		s.serverStartedChan = make(chan struct{}, 1)
 	}()
 
-	m := make([]byte, s.cfg.MaxMessageSize)
+	// one byte more than the largest message that is accepted: a read that fills the buffer has met a longer
+	// datagram, whose tail the socket has thrown away - Conn.Process refuses it by its size instead of parsing the
+	// head and presenting a cut-off body as complete.
+	m := make([]byte, int(s.cfg.MaxMessageSize)+1)
 
 	s.cfg.PeriodicRunner(func(now time.Time) bool {
 		s.handleInactivityMonitors(now)
